@@ -3,7 +3,7 @@
 
    [construct d] (Model/BoundsCheck.v) is the executable model of BADS.__init__ + _bounds_check_ on a
    definition d = (x0, lb, ub, plb, pub), each vector optional, values finite / +-inf / NaN, ANY
-   dimension: [Reject r] = ValueError raised by test r, [Crash c] = another exception class,
+   dimension: [Reject r] = ValueError raised by test r, [Crash c] = another exception class (D = 0 only),
    [Accept n] = the normalised problem.  [invalid d] (Model/BoundsSpec.v) is the property's list
    written declaratively on the raw definition.  All theorems quantify over all definitions of all
    dimensions; they are proved per coordinate and lifted over the list, not by enumeration.
@@ -50,7 +50,7 @@ Theorem C08_reject_sound_partial :
 Proof. exact reject_sound_partial. Qed.
 Print Assumptions C08_reject_sound_partial.
 
-(* Exact decision of the list on regular definitions: x0 is a finite point or not given at all
+(* Exact decision of the list on regular definitions: x0 has no NaN coordinate or is not given at all
    (absent / NaN everywhere), no hard bound is a non-zero number of magnitude <= realmin, and no
    plausible box lies entirely inside one of the 0.1% margins of its hard box ([regular]). *)
 Theorem C08_reject_complete :
@@ -64,6 +64,20 @@ Theorem C08_valid_accepted :
   forall d : defn, regular d -> nonempty d -> ~ invalid d -> exists n, construct d = Accept n.
 Proof. exact valid_accepted. Qed.
 Print Assumptions C08_valid_accepted.
+
+(* No other exception: the only non-ValueError raise site after the checks, np.random.uniform(plb, pub)
+   with a non-finite range (OverflowError), is unreachable for every definition (D = 0 aside). *)
+Theorem C08_never_overflows : forall d : defn, construct d <> Crash COverflow.
+Proof. exact never_overflows. Qed.
+Print Assumptions C08_never_overflows.
+
+(* An infinite starting coordinate is invalid (not a point of the box) and raises ValueError. *)
+Theorem C08_inf_x0_rejected :
+  forall (d : defn) (D i : nat),
+    nonempty d -> dim_of d = Some D -> (i < D)%nat -> xisinf (x0_at d i) = true ->
+    invalid d /\ exists r, construct d = Reject r.
+Proof. exact inf_x0_rejected. Qed.
+Print Assumptions C08_inf_x0_rejected.
 
 (* The accepted problem is exactly the documented repair of the input ([repaired], BoundsSpec.v):
    hard bounds unchanged; x0 clamped to [LB_eff, UB_eff]; plb/pub (defaulting to lb/ub) pulled to
@@ -108,13 +122,6 @@ Theorem C08_nan_coordinate_refuted :
   exists d, nonempty d /\ ~ invalid d /\ construct d = Reject RStrictBounds2.
 Proof. exact nan_coordinate_refuted. Qed.
 Print Assumptions C08_nan_coordinate_refuted.
-
-(* x0 = +inf in an unbounded coordinate: neither ValueError nor accepted — OverflowError from
-   np.random.uniform(plb, +inf). *)
-Theorem C08_inf_x0_refuted :
-  exists d, nonempty d /\ ~ invalid d /\ construct d = Crash COverflow.
-Proof. exact inf_x0_refuted. Qed.
-Print Assumptions C08_inf_x0_refuted.
 
 (* lb = x0 = realmin, ub = 2 realmin: accepted with x0 left ON the hard bound (the special case
    |lb| <= realmin sets LB_eff = 1e-3*range < lb). *)
